@@ -118,6 +118,11 @@ def expand_stubs(names):
 
 
 _loaded = False
+_FINAL = []
+
+
+def finalizer(f):
+    _FINAL.append(f)
 
 
 def all_instances():
@@ -127,4 +132,6 @@ def all_instances():
         import glob, os
         for f in sorted(glob.glob(os.path.join(os.path.dirname(os.path.abspath(__file__)), 'props', '[cz]*.py'))):
             importlib.import_module('kvlib.props.' + os.path.basename(f)[:-3])
+        for f in _FINAL:
+            f(_INSTANCES)
     return _INSTANCES
